@@ -13,7 +13,7 @@ import (
 
 // Plan builds the worker configs for a tier.
 func Plan(r *report.Run, retry bool, forms []string) []atom.Config {
-	shapes := []string{"S3-leaf-insert", "S4-split", "S6-updates", "S7-removes", "S1-newstore", "S9-multistore", "S10-create-and-change"}
+	shapes := []string{"S3-leaf-insert", "S4-split", "S6-updates", "S7-removes", "S1-newstore", "S9-multistore", "S10-create-and-change", "S0-first-root"}
 	profiles := []sopx.Profile{sopx.InNode, sopx.Separate}
 	slots := []int{4, 2}
 	reps := 1
